@@ -125,6 +125,8 @@ func (p *ProjectRunner) runProcess(config *types.ProcessConfig) {
 		procLog = pclog.NewLogBuffer(0)
 	}
 	procState, _ := p.GetProcessState(config.ReplicaName)
+	// read before the process is published: once it is registered a concurrent scale may rename it
+	replicaName := config.ReplicaName
 	isMain := config.Name == p.mainProcess
 	hasMain := p.mainProcess != ""
 	printLogs := !hasMain && !p.isTuiOn
@@ -151,7 +153,7 @@ func (p *ProjectRunner) runProcess(config *types.ProcessConfig) {
 	p.addRunningProcess(process)
 	// it is no longer an ended process: a dependent that looks it up from now on has to find this
 	// instance and wait for it, not the one of the previous run
-	p.removeDoneProcess(config.ReplicaName)
+	p.removeDoneProcess(replicaName)
 	p.waitGroup.Add(1)
 	verif.Count("run:wg", 1)
 	verif.Spawn()
